@@ -94,8 +94,13 @@ def shape_def(n1, n2, n3, c1, c2):             # def n1(n2): return n2 + c1
                                type_params=[]))
 
 
+def shape_for_other(n1, n2, n3, c1, c2):       # for n1 in n2: n3 = n3 + n2   (the body does NOT read the loop variable)
+    body = assign(n3, ast.BinOp(left=N(n3, line=2), op=ast.Add(), right=N(n2, line=2), lineno=2, col_offset=0), 2)
+    return mod(ast.For(target=S(n1), iter=N(n2), body=[body], orelse=[], lineno=1, col_offset=0))
+
+
 SHAPES = [shape_binop_add, shape_binop_mult, shape_binop_sub, shape_augassign, shape_if, shape_for, shape_call,
-          shape_method, shape_while, shape_three, shape_def]
+          shape_method, shape_while, shape_three, shape_def, shape_for_other]
 
 
 def run_matcher(pattern, tree):
